@@ -65,5 +65,9 @@ check("C15", "exploration",
       "Permutation-window and periodicity oracle on the sequence of words inserted by 2N+3 presses of menu-complete / menu-complete-backward, for N = 2..60 candidates in six layouts (plain, described, aliased, multi-tag, long, double-width) on terminals 20-160 x 6-40 incl. menus taller than the screen.",
       TCB, "runtime monitoring: trace checker (period-N permutation windows) over the inserted-word sequence", "DESIGN.md 5 C15")
 
+check("C16", "exploration",
+      "Inverse-law oracle kill o yank: for 10 Emacs kill commands bound by name (and Vi x/P) from every cursor position of 15 history-recalled buffers with numeric arguments and multi-kill sequences, the kill buffer must be exactly the removed text (L1[:i] + R + L1[i:] == L) and an immediate yank at that point must restore the buffer; after several kills yank gives the most recent.",
+      TCB, "runtime monitoring: inverse-law oracle on before/after snapshots and the public kill-buffer getter", "DESIGN.md 5 C16")
+
 for _p in ["C03","C04","C05","C06","C07","C08","C09","C10","C11","C12","C13","C14","C15","C16","C17","C18","C19","C20"]:
     NOT_YET[_p] = "check under construction in this session (runtime monitor designed in DESIGN.md section 5, not yet registered)"
